@@ -161,7 +161,7 @@ func must(err error) {
 func (c *caseRun) apply(ct content) {
 	now := coldWalk(c.root)
 	for n := range now {
-		if now[n] != ct[n] {
+		if ct[n] == "" { // (a changed file is replaced by the rename below, atomically)
 			must(os.RemoveAll(filepath.Join(c.root, n)))
 		}
 	}
@@ -172,8 +172,12 @@ func (c *caseRun) apply(ct content) {
 		if k == "d" {
 			must(os.Mkdir(filepath.Join(c.root, n), 0o755))
 		} else {
+			// written next to the root and renamed into place: a polling scan
+			// running at this moment sees the old state or the complete file
 			v, _ := strconv.Atoi(k[1:])
-			must(os.WriteFile(filepath.Join(c.root, n), variant(v), 0o644))
+			tmp := c.root + ".tmp-" + n
+			must(os.WriteFile(tmp, variant(v), 0o644))
+			must(os.Rename(tmp, filepath.Join(c.root, n)))
 		}
 	}
 }
@@ -213,11 +217,38 @@ func (c *caseRun) randomEdit(ct content) content {
 	return out
 }
 
+// doEdit brings the root to the target content, one name at a time: every
+// intermediate state is a journalled edit of its own (each is atomic on disk).
 func (c *caseRun) doEdit(target content) {
-	c.apply(target)
-	c.log(fmt.Sprintf("E%d", c.id(target)))
-	c.sinceTransEnd = append(c.sinceTransEnd, target.String())
-	c.counts["op:E"]++
+	for guard := 0; guard < 8; guard++ {
+		cur := coldWalk(c.root)
+		if cur.String() == target.String() {
+			return
+		}
+		var names []string
+		for n := range cur {
+			names = append(names, n)
+		}
+		for n := range target {
+			names = append(names, n)
+		}
+		sort.Strings(names)
+		step := cur.clone()
+		for _, n := range names {
+			if cur[n] != target[n] {
+				if target[n] == "" {
+					delete(step, n)
+				} else {
+					step[n] = target[n]
+				}
+				break
+			}
+		}
+		c.apply(step)
+		c.log(fmt.Sprintf("E%d", c.id(step)))
+		c.sinceTransEnd = append(c.sinceTransEnd, step.String())
+		c.counts["op:E"]++
+	}
 }
 
 func (c *caseRun) doScan(full bool) {
